@@ -1,6 +1,8 @@
 package phpgen
 
 import (
+	"strings"
+
 	"bytes"
 
 	"github.com/z7zmey/php-parser/pkg/ast"
@@ -871,7 +873,7 @@ func (g *Gen) members(allowAbstract, iface bool) []ast.Vertex {
 			case 0:
 				p.Modifiers = []ast.Vertex{g.modifier(token.T_VAR, "var")}
 			case 1:
-				p.Modifiers = []ast.Vertex{g.visibility(), g.modifier(token.T_STATIC, "static")}
+				p.Modifiers = g.shuffled([]ast.Vertex{g.visibility(), g.modifier(token.T_STATIC, "static")}, 2)
 			case 2:
 				p.Modifiers = []ast.Vertex{g.modifier(token.T_STATIC, "static")}
 			default:
@@ -918,6 +920,19 @@ func (g *Gen) members(allowAbstract, iface bool) []ast.Vertex {
 	return out
 }
 
+// shuffled returns k of the given nodes in a drawn order.
+func (g *Gen) shuffled(xs []ast.Vertex, k int) []ast.Vertex {
+	out := append([]ast.Vertex{}, xs...)
+	for i := len(out) - 1; i > 0; i-- {
+		j := g.intn(i+1, "shuffle")
+		out[i], out[j] = out[j], out[i]
+	}
+	if k < len(out) {
+		out = out[:k]
+	}
+	return out
+}
+
 func (g *Gen) method(allowAbstract, iface bool) ast.Vertex {
 	g.feat("member:method")
 	m := &ast.StmtClassMethod{FunctionTkn: g.kw(token.T_FUNCTION, "function"), OpenParenthesisTkn: g.ch('('), CloseParenthesisTkn: g.ch(')')}
@@ -937,6 +952,27 @@ func (g *Gen) method(allowAbstract, iface bool) ast.Vertex {
 		if !iface {
 			m.Modifiers = []ast.Vertex{g.modifier(token.T_FINAL, "final"), g.visibility()}
 		}
+	case 4:
+		// up to three modifiers in any order ("static final public function", "abstract static protected")
+		if !iface {
+			g.feat("modifiers:any-order")
+			set := []ast.Vertex{g.visibility(), g.modifier(token.T_STATIC, "static")}
+			if allowAbstract && g.chance(1, 2, "abstractinset") {
+				set = append(set, g.modifier(token.T_ABSTRACT, "abstract"))
+				abstract = true
+			} else {
+				set = append(set, g.modifier(token.T_FINAL, "final"))
+			}
+			m.Modifiers = g.shuffled(set, g.rng(2, 3, "nmods"))
+			abstract = false
+			for _, x := range m.Modifiers {
+				if strings.EqualFold(string(x.(*ast.Identifier).Value), "abstract") {
+					abstract = true
+				}
+			}
+			break
+		}
+		m.Modifiers = g.shuffled([]ast.Vertex{g.modifier(token.T_PUBLIC, "public"), g.modifier(token.T_STATIC, "static")}, 2)
 	default:
 		if iface {
 			m.Modifiers = []ast.Vertex{g.modifier(token.T_PUBLIC, "public")}
